@@ -168,4 +168,18 @@ def msgSignBytes (m : MsgC) : Bytes :=
     | none => []
   else []
 
+/-! ## well-formedness the handlers demand of a decoded, validly signed message -/
+
+/-- `bft.checkSignatureBasic`: present, 48-byte BLS public key, 96-byte BLS signature -/
+def sigBasicOk : Option SigC → Bool
+  | some g => g.publicKey.length == 48 && g.signature.length == 96
+  | none => false
+
+/-- the ELECTION branch of `BFT.CheckProposerMessage` (beyond header and message signature): the VRF is
+present with the right element sizes and names the sender — only then is `x.Vrf.PublicKey` read -/
+def MsgC.electionWellFormed (m : MsgC) (senderKey : Bytes) : Bool :=
+  sigBasicOk m.vrf && (match m.vrf with
+    | some g => g.publicKey == senderKey
+    | none => false)
+
 end Canopy.SignBytes
